@@ -740,3 +740,17 @@ func Panics(f func()) (panicked bool, value any) {
 	f()
 	return false, nil
 }
+
+// FirstFailure returns one recorded failure of the worker (class order), for harnesses that report immediately (fuzz targets).
+func (w *W) FirstFailure() (class, detail string, ok bool) {
+	best := ""
+	for c := range w.fails {
+		if best == "" || c < best {
+			best = c
+		}
+	}
+	if best == "" {
+		return "", "", false
+	}
+	return best, w.fails[best].detail, true
+}
